@@ -362,6 +362,8 @@ class G:
         for _ in range(2):
             self.steps.append({"op": "dispatch"})
         scn = {"id": sid, "tick_us": 2000, "sources": self.srcs, "progs": self.progs, "steps": self.steps}
+        if self.cls in ("chans", "streams", "mix", "ready") and r.random() < 0.5:
+            scn["limit"] = r.choice([1, 2, 3])      # per-dispatch batch limit of channels (verif hook)
         if self.faults:
             scn["faults"] = self.faults
         return scn
